@@ -128,6 +128,9 @@ pub fn full_ops(rng: &mut Rng) -> Vec<ROp> {
         };
         v.push(ROp::Fe(op));
     }
+    // the largest configuration window a message can carry (header size field = 0x1000 exactly)
+    v.push(ROp::Fe(FeOp::GetConfig { offset: 12, size: ops::MAX_CONFIG_PAYLOAD, flags: 0, buf: rng.bytes(ops::MAX_CONFIG_PAYLOAD as usize) }));
+    v.push(ROp::Fe(FeOp::SetConfig { offset: 0, flags: 1, buf: rng.bytes(ops::MAX_CONFIG_PAYLOAD as usize) }));
     v.push(ROp::GpuSetSocket);
     v.push(ROp::VringFdNone(fe::SET_VRING_KICK, 1));
     v.push(ROp::VringFdNone(fe::SET_VRING_CALL, 0));
